@@ -114,6 +114,9 @@ RenderQ(q, st, top) ==
   IF top /\ st.rootless /\ q.root = "$" /\ q.segs # <<>> /\ q.segs[1].sels[1].k = "name" /\ Len(q.segs[1].sels) = 1
         /\ ShorthandOK(q.segs[1].sels[1].s) /\ ~q.segs[1].desc /\ q.segs[1].sels[1].s \notin Reserved
   THEN q.segs[1].sels[1].s \o RenderSegs(Tail(q.segs), [st EXCEPT !.dot = TRUE])
+  \* (a query without its root identifier may also begin with the keys selector: `~` for `$.~`)
+  ELSE IF top /\ st.rootless /\ q.root = "$" /\ q.segs # <<>> /\ Len(q.segs[1].sels) = 1 /\ q.segs[1].sels[1].k = "keys" /\ ~q.segs[1].desc
+  THEN st.tok.keys \o RenderSegs(Tail(q.segs), [st EXCEPT !.dot = TRUE])
   ELSE RootText(q.root, st) \o RenderSegs(q.segs, st)
 
 RenderArgs(args, st) == <<40>> \o st.sp \o JoinWith([j \in 1..Len(args) |-> RenderOperand(args[j], st)], st.sp \o <<44>> \o st.sp) \o st.sp \o <<41>>
